@@ -31,11 +31,16 @@ type Outcome struct {
 	NonTrivial bool           `json:"nontrivial"`
 	CaseHashes []uint64       `json:"case_hashes,omitempty"` // per-case distinctness hashes when one run enumerates many cases
 	Evals      int            `json:"evals,omitempty"`       // cases evaluated by this run (0: the run is one case)
-	Sample     any            `json:"sample,omitempty"`
-	Log        []string       `json:"log,omitempty"`
-	Porcupine  [3]int         `json:"porcupine,omitempty"` // ok, illegal, unknown
-	RaceRun    bool           `json:"race_run,omitempty"`
-	RaceCount  int            `json:"race_count,omitempty"`
+	// Digest hashes everything the system side of this run let a caller observe (outputs,
+	// errors, written bytes, identities). It must be a function of the run alone: the
+	// driver compares it across processes that executed the run after different
+	// histories (order-independence oracle).
+	Digest    uint64   `json:"digest"`
+	Sample    any      `json:"sample,omitempty"`
+	Log       []string `json:"log,omitempty"`
+	Porcupine [3]int   `json:"porcupine,omitempty"` // ok, illegal, unknown
+	RaceRun   bool     `json:"race_run,omitempty"`
+	RaceCount int      `json:"race_count,omitempty"`
 }
 
 func (o *Outcome) addViolation(class, key, detail string, exp, obs any) {
@@ -45,6 +50,17 @@ func (o *Outcome) addViolation(class, key, detail string, exp, obs any) {
 		}
 	}
 	o.Violations = append(o.Violations, &Violation{Class: class, Key: key, Detail: detail, Expected: exp, Observed: obs})
+}
+
+func (o *Outcome) dig(parts ...string) {
+	h := hasher(o.Digest)
+	if o.Digest == 0 {
+		h = newHasher()
+	}
+	for _, p := range parts {
+		h.str(p)
+	}
+	o.Digest = uint64(h)
 }
 
 func (o *Outcome) probe(name string) {
